@@ -192,7 +192,8 @@ impl<const K: usize> Dual<K> {
 
 /// Result of a dual evaluation: value+derivatives of every node, plus the
 /// smallest margin by which a non-differentiable decision (min/max tie, abs at
-/// zero, and/or/compare/floor etc.) was taken.  `supported == false` means the
+/// zero, and/or/compare/floor etc.) was taken or by which a pole of a
+/// derivative (recip/div/ln at 0, asin/acos at +-1, tan, sqrt at 0) was missed.  `supported == false` means the
 /// DAG uses an op whose derivative the harness does not model.
 pub struct DualEval<const K: usize> {
     pub vals: Vec<Dual<K>>,
@@ -225,7 +226,11 @@ pub fn eval_dual<const K: usize>(
                         tie = tie.min(a.v.abs());
                         a.map(a.v.abs(), if a.v < 0.0 { -1.0 } else { 1.0 })
                     }
-                    Un::Recip => a.map(1.0 / a.v, -1.0 / (a.v * a.v)),
+                    Un::Recip => {
+                        // derivative pole
+                        tie = tie.min(a.v.abs());
+                        a.map(1.0 / a.v, -1.0 / (a.v * a.v))
+                    }
                     Un::Sqrt => {
                         tie = tie.min(a.v.abs());
                         a.map(a.v.sqrt(), 0.5 / a.v.sqrt())
@@ -233,16 +238,24 @@ pub fn eval_dual<const K: usize>(
                     Un::Square => a.map(a.v * a.v, 2.0 * a.v),
                     Un::Sin => a.map(a.v.sin(), a.v.cos()),
                     Un::Cos => a.map(a.v.cos(), -a.v.sin()),
-                    Un::Tan => a.map(a.v.tan(), 1.0 / a.v.cos().powi(2)),
+                    Un::Tan => {
+                        tie = tie.min(a.v.cos().abs());
+                        a.map(a.v.tan(), 1.0 / a.v.cos().powi(2))
+                    }
                     Un::Asin => {
+                        tie = tie.min(1.0 - a.v.abs());
                         a.map(a.v.asin(), 1.0 / (1.0 - a.v * a.v).sqrt())
                     }
                     Un::Acos => {
+                        tie = tie.min(1.0 - a.v.abs());
                         a.map(a.v.acos(), -1.0 / (1.0 - a.v * a.v).sqrt())
                     }
                     Un::Atan => a.map(a.v.atan(), 1.0 / (1.0 + a.v * a.v)),
                     Un::Exp => a.map(a.v.exp(), a.v.exp()),
-                    Un::Ln => a.map(a.v.ln(), 1.0 / a.v),
+                    Un::Ln => {
+                        tie = tie.min(a.v.abs());
+                        a.map(a.v.ln(), 1.0 / a.v)
+                    }
                     Un::Floor | Un::Ceil | Un::Round | Un::Not => {
                         supported = false;
                         Dual::c(0.0)
@@ -272,6 +285,7 @@ pub fn eval_dual<const K: usize>(
                         }
                     }
                     Bin::Div => {
+                        tie = tie.min(b.v.abs());
                         out.v = a.v / b.v;
                         for i in 0..K {
                             out.d[i] =
